@@ -1,6 +1,7 @@
 package harness
 
 import (
+	"context"
 	"crypto/tls"
 	"fmt"
 	"strings"
@@ -144,6 +145,12 @@ func newTestClientCfg(addr string, o clientOpt) (*xmpp.Client, *recorder, *xmpp.
 	}
 	c.SetHandler(rec.onEvent)
 	return c, rec, cfg, nil
+}
+
+func ctxShort() context.Context {
+	ctx, cancel := context.WithTimeout(context.Background(), 50*time.Millisecond)
+	_ = cancel
+	return ctx
 }
 
 // inbound element builders shared by the session checks
